@@ -56,7 +56,7 @@ def run_worker(prop, ob, shard, tier, seed, twin, tmpdir):
     if twin:
         cmd.append("--twin")
     scale = float(os.environ.get("VERIF_BUDGET_SCALE", "1"))
-    limit = (60 if twin else ob.budget_s(tier) * scale * 1.25 + 90)
+    limit = (60 + 35 * ob.nshards(tier) if twin else ob.budget_s(tier) * scale * 1.25 + 90)
     t0 = time.time()
     if _EARLY["stop"]:
         return _empty_result(prop, ob, shard, twin, "skipped: a violation was already found (VERIF_STOP_EARLY)")
